@@ -965,6 +965,8 @@ def gen_cases(rng, tier, scale=1.0):
     cases = []
 
     def add(stream, sname, n, **kw):
+        if sname == "array_two_fields":
+            n = 2           # one thread per field: the shape is the conflict-free (C20_partial) scenario
         fl = pick_fields(rng, sname, n)
         ths = [gen_thread(rng, sname, stream, fl[i], i) for i in range(n)]
         c = {"stream": stream, "shape": sname, "threads": ths, "sseed": rng.randrange(1 << 30)}
